@@ -32,7 +32,9 @@ Accepted grammar (everything else -> TranslateError naming file, line and constr
                  inheritance: a member not overridden in the OffDiagonal class is the Longitudinal one, and
                  every method is translated once per *instance* class (self.X resolves through the MRO)
   statements     docstring;  NAME = expr  (single assignment, fresh non-reserved name, value not a bare name);
-                 NAME[numpy.where(self.t_array == 0), :] = 0   or   NAME[self.t_array == 0, :] = 0
+                 NAME1, NAME2, ... = <tuple of as many components>  (same conditions per name);
+                 NAME[MASK, :] = 0  with MASK = numpy.where(self.t_array == 0) | self.t_array == 0 |
+                 self.<property whose whole body is `return self.t_array == 0`>
                  on a fresh, not yet used local of axes (T,V)  (-> `if is0 t then zero else ...` guard);
                  HELPER(args) as a statement (see below);  return expr  (last statement)
   expressions    int constants, float literals that are short exact decimals p/q (0.5 -> 1/2; the literal is the
@@ -209,11 +211,30 @@ def average_over_modes(amount, q_weights):
     clear_gamma_point(_amount)
     inner = numpy.average(_amount, axis=-1)
     return numpy.average(inner, weights=q_weights, axis=-1)
+""", """
+def average_over_modes(amount, q_weights):
+    dims = amount.ndim
+    _amount = amount.copy()
+    clear_gamma_point(_amount)
+    return numpy.average(numpy.average(_amount, axis=dims - 1), weights=q_weights, axis=dims - 2)
+""", """
+def average_over_modes(amount, q_weights):
+    dims = amount.ndim
+    _amount = amount.copy()
+    clear_gamma_point(_amount)
+    inner = numpy.average(_amount, axis=dims - 1)
+    return numpy.average(inner, weights=q_weights, axis=dims - 2)
 """],
-    # tuple([slice(None)] * (d - 2) + [0, slice(0, 3)]) is the index [..., 0, 0:3] for ndim d >= 2
+    # tuple([slice(None)] * (d - 2) + [0, slice(0, 3)]) is the index [..., 0, 0:3] for ndim d >= 2;
+    # ndarray.ndim is len(ndarray.shape)
     "clear_gamma_point": ["""
 def clear_gamma_point(mat):
     dims = len(mat.shape)
+    indices = tuple([slice(None)] * (dims - 2) + [0, slice(0, 3)])
+    mat[indices] = 0
+""", """
+def clear_gamma_point(mat):
+    dims = mat.ndim
     indices = tuple([slice(None)] * (dims - 2) + [0, slice(0, 3)])
     mat[indices] = 0
 """, """
@@ -786,6 +807,24 @@ class Translator:
                         bail(s, "aliasing assignment of a bare name")
                     env[tg.id] = self.expr(s.value, st)
                     continue
+                if isinstance(tg, ast.Tuple):
+                    # a, b = x, y : the right-hand side is evaluated completely before any name is bound
+                    names = [x.id if isinstance(x, ast.Name) else None for x in tg.elts]
+                    if None in names or len(set(names)) != len(names):
+                        bail(s, "tuple assignment to something other than distinct names")
+                    for n in names:
+                        if n in env:
+                            bail(s, "local name assigned twice")
+                        if n in RESERVED:
+                            bail(s, "local name shadows a name the translation relies on")
+                    if isinstance(s.value, ast.Tuple) and any(isinstance(x, ast.Name) for x in s.value.elts):
+                        bail(s, "aliasing assignment of a bare name")
+                    v = self.expr(s.value, st)
+                    if not isinstance(v, Tup) or len(v.items) != len(names):
+                        bail(s, "tuple assignment needs a tuple of %d components on the right" % len(names))
+                    for n, x in zip(names, v.items):
+                        env[n] = x
+                    continue
                 if isinstance(tg, ast.Subscript):
                     self.guard(s, tg, st)
                     continue
@@ -813,24 +852,41 @@ class Translator:
         sl = tg.slice
         ok = isinstance(sl, ast.Tuple) and len(sl.elts) == 2 and isinstance(sl.elts[1], ast.Slice) and \
             sl.elts[1].lower is None and sl.elts[1].upper is None and sl.elts[1].step is None
-        w = sl.elts[0] if ok else None
         # row selector: numpy.where(mask) (integer row indices) or the boolean mask itself - both select exactly
         # the rows of axis 0 (T) where the mask holds
-        if ok and isinstance(w, ast.Call) and ast.unparse(w.func) == "numpy.where" and len(w.args) == 1 and \
-                not w.keywords:
-            w = w.args[0]
-        ok = ok and isinstance(w, ast.Compare) and len(w.ops) == 1 and isinstance(w.ops[0], ast.Eq)
-        if ok:
-            c = w
-            lhs = self.arr(c.left, st)
-            r = c.comparators[0]
-            ok = lhs.sig == ("T",) and lhs.term == ("atom", "t") and isinstance(r, ast.Constant) and \
-                type(r.value) in (int, float) and r.value == 0
+        ok = ok and self.is_t0_mask(sl.elts[0], st, 0)
         ok = ok and isinstance(s.value, ast.Constant) and type(s.value.value) in (int, float) and s.value.value == 0
         if not ok:
             bail(s, "in-place assignment other than `NAME[numpy.where(self.t_array == 0), :] = 0` / "
-                    "`NAME[self.t_array == 0, :] = 0`")
+                    "`NAME[self.t_array == 0, :] = 0` (or a property returning that mask)")
         set_local(env, tg.value.id, Arr(a.sig, ("guard", a.term), fresh=True))
+
+    def is_t0_mask(self, w, st, depth):
+        """does w denote the boolean array (self.t_array == 0) of axes (T), or numpy.where of it?
+        Accepted: the comparison itself; numpy.where(<mask>) ; self.<property> whose whole body is `return <mask>`
+        (a pure boolean expression of t_array: cached or not, nothing in the grammar can modify it)"""
+        if depth > 4:
+            return False
+        if isinstance(w, ast.Call) and ast.unparse(w.func) == "numpy.where" and len(w.args) == 1 and not w.keywords:
+            return depth == 0 and self.is_t0_mask(w.args[0], st, depth + 1)
+        if isinstance(w, ast.Compare) and len(w.ops) == 1 and isinstance(w.ops[0], ast.Eq):
+            lhs = self.arr(w.left, st)
+            r = w.comparators[0]
+            return lhs.sig == ("T",) and lhs.term == ("atom", "t") and isinstance(r, ast.Constant) and \
+                type(r.value) in (int, float) and r.value == 0
+        if isinstance(w, ast.Attribute) and isinstance(w.value, ast.Name) and w.value.id == "self" and \
+                st.get("has_self", True) and w.attr not in POINTWISE and w.attr not in GRID and \
+                w.attr not in INSTANCE_ATTRS:
+            fn, owner = self.resolve(st["cls"], w.attr)
+            if fn is None or deco_names(fn) not in (["LazyProperty"], ["property"]) or arg_names(fn) != ["self"]:
+                return False
+            stmts = [x for x in fn.body if not is_doc(x)]
+            if len(stmts) == 1 and isinstance(stmts[0], ast.Return) and stmts[0].value is not None and \
+                    self.is_t0_mask(stmts[0].value, dict(st, env={}), depth + 1):
+                self.inlined_helpers.add("%s.%s (mask property, defined in %s), line %d"
+                                         % (PREFIX[st["cls"]], w.attr, owner, fn.lineno))
+                return True
+        return False
 
     # ---- properties ----------------------------------------------------------------------------
     def member_fn(self, cls, name):
